@@ -62,8 +62,14 @@ SPEC = dict(
                    'Model/Base64.lean (str.split, int(str[,16]), bytes.fromhex, str(int), bytes.hex, int.to_bytes/from_bytes, base64/'
                    'binascii are modelled by hand for ASCII text) - tied to the library only by sampled differential correspondence '
                    '(~150k model requests quick, ~6M thorough: every text produced, every parse result, all 3024 substitutions of 40/2000 '
-                   'addresses, lenient and malformed inputs); crc16 itself is the C18 translation of crc.py (re-proved each run).',
-        technique='Lean 4 proof (hand model + translated CRC) + differential correspondence with the library + independent format oracle',
+                   'addresses, lenient and malformed inputs); crc16 itself is the C18 translation of crc.py (re-proved each run). The tag '
+                   'arithmetic is regenerated from address.py on every run (Generated/AddrTags.lean): the statements of to_str computing the tag '
+                   'byte (0x11 / 0x51, |0x80) and the statements of is_b64 decoding it (test flag = bit 7, bounceable iff the rest is 0x11) are '
+                   'proved equal to the model for all flag values and all 256 byte values (c13_src_tag, c13_src_b64_flags) and the hand model '
+                   'is proved to write / read exactly these values (c13_src_model_to_str, c13_src_model_b64); trusted there: the translator '
+                   'harness/translate/pyarith.py.',
+        technique='Lean 4 proof (hand model + translated CRC) + differential correspondence with the library + independent format oracle '
+                  '+ source-regenerated tag arithmetic',
     ),
     translators=[],
     design_ref='DESIGN.md §6 C13',
@@ -72,6 +78,7 @@ SPEC = dict(
          'distinct = distinct (operation, address, variant or text); non-trivial = every case except the empty text',
     trusted_base=['Model/Address.lean + Model/Base64.lean mirror address.py and the used part of base64/binascii/int()/bytes.fromhex by hand (ASCII texts)',
                   'Model.crc16 = translated crc.py (C18 tie)',
+                  'harness/translate/pyarith.py + arith.py/arith2.py (Python statements -> Lean) for the c13_src_* theorems',
                   'harness/props/C13.py: independent transcription of the friendly/raw format (own CRC-16, own base64)'],
     assumptions=['correspondence is sampled differential testing', 'texts are ASCII (non-ASCII digits/white space accepted by int() are outside the model)',
                  "CPython's default int<->str limit of 4300 digits"],
@@ -80,7 +87,9 @@ SPEC = dict(
 
 def _translators():
     from ..translate import crc as tr
-    return [('crc.py->Generated/Crc.lean', tr.regenerate)]
+    from ..translate import arith2
+    return [('crc.py->Generated/Crc.lean', tr.regenerate),
+            ('address.py tag arithmetic of to_str / is_b64->Generated/AddrTags.lean', arith2.regenerator('AddrTags'))]
 
 
 SPEC['translators'] = _translators()
@@ -352,8 +361,27 @@ def addresses(ctx, n_random):
         yield rng.randrange(-128, 128), hp
 
 
+def src_search(ctx):
+    """Search mode only: the points where the regenerated tag arithmetic (Generated/AddrTags.lean) differs from the model's: every
+    variant of a few addresses (round trip with flags = the property), and the friendly text carrying each differing tag byte.
+    True = a concrete failing input was found."""
+    from ..translate import arith2
+    found = arith2.search_points(ctx, ['AddrTags'])
+    n0 = len(ctx.failures)
+    rng = ctx.rng
+    for wc in (0, -1, 127):
+        check_addr(ctx, wc, rng.randbytes(32), 'src')
+    tags = sorted({pt['tag0'] for k in ('b64TestOnly', 'b64Bounceable') for pt in (found.get(k) or [])})[:16]
+    for tag in tags:
+        body = bytes([tag, 0]) + rng.randbytes(32)
+        check_text(ctx, spec_b64(body + bit16(body), True), 'src-tag')
+    return len(ctx.failures) > n0
+
+
 def run(ctx):
     rng = ctx.rng
+    if ctx.search and src_search(ctx):
+        return
     # 1. all text forms of structured + random addresses
     addrs = list(addresses(ctx, ctx.n(400, 3000)))
     for wc, hp in addrs:
